@@ -472,6 +472,9 @@ func (i *interpreter) classify(r interface{}, pr *pathResult) {
 		}
 	case runtime.Error:
 		msg := p.Error()
+		if os.Getenv("GS_STACK") != "" {
+			fmt.Fprintln(os.Stderr, msg, string(debug.Stack()))
+		}
 		if strings.Contains(msg, "comparing uncomparable") || strings.Contains(msg, "hash of unhashable") {
 			pr.kind, pr.outcome = "engine", "interp: "+msg+"\n"+shortStack()
 		} else {
